@@ -1471,7 +1471,122 @@ func genCodec(r *Repo) (string, error) {
 	fmt.Fprintf(&b, "\n(* recv: the decode buffer handed to m.decode is the pooled (or new) slice cut to exactly the size read from the stream:\n   data := *datap; data = make([]byte, size) | data = data[:size]; dataBuf = buffer{data: data} *)\nDefinition gen_recv_buffer_exact : bool := %s.\n", boolc(g.factRecvBufferExact()))
 	fmt.Fprintf(&b, "(* tread.handle: n, err = file.ReadAt(buf[:count], off)  and the reply carries  Data: buf[:n], fullBuffer: buf *)\nDefinition gen_rread_data_is_n : bool := %s.\n", boolc(g.factRreadDataIsN()))
 	fmt.Fprintf(&b, "(* rreadServerPayloader.PayloadCleanup: copy(r.Data, r.cs.pristineZeros) and only then readBufPool.Put(&r.fullBuffer);\n   pristineZeros and the pooled buffers are both make([]byte, msize) *)\nDefinition gen_cleanup_zeroes_before_put : bool := %s.\n", boolc(g.factCleanupZeroes()))
+	// the pool operations a Tread goes through, in execution order (success path): tread.handle, then send
+	// (WriteTo, deferred PayloadCleanup inlined).  "?" marks anything the reader does not understand: the
+	// obligation GenCheckReuse.read_ops_spec then fails; never a refusal.
+	ops := append(g.roEvents(g.funcs["tread.handle"]), g.roEvents(g.funcs["send"])...)
+	fmt.Fprintf(&b, "\n(* pool operations of one Tread in execution order: tread.handle (readBufPool.Get, ReadAt / xattr copy into the buffer, any Put), then send\n   (vecs.WriteTo, the deferred PayloadCleanup of rreadServerPayloader inlined: zeroing copy, readBufPool.Put); deferred calls run at function end *)\nDefinition gen_read_ops : list string := %s.\n", cgStrList(ops))
 	return b.String(), nil
+}
+
+// roEvents lists the read-buffer-pool events of a function in execution order.  Deferred calls are moved to the
+// end of the function (or function literal) they belong to, LIFO.  The clauses of a switch are alternatives: the
+// non-empty ones must agree.  An event under an if/for is conditional: "?".
+func (g *cg) roEvents(fd *ast.FuncDecl) []string {
+	if fd == nil || fd.Body == nil {
+		return []string{"?"}
+	}
+	return g.roBlock(fd.Body, 0)
+}
+
+func (g *cg) roBlock(body ast.Node, depth int) []string {
+	var evs, deferred []string
+	if depth > 4 {
+		return []string{"?"}
+	}
+	var visit func(n ast.Node) bool
+	sub := func(n ast.Node) []string {
+		if n == nil {
+			return nil
+		}
+		save := evs
+		evs = nil
+		ast.Inspect(n, visit)
+		out := evs
+		evs = save
+		return out
+	}
+	visit = func(n ast.Node) bool {
+		switch x := n.(type) {
+		case *ast.FuncLit:
+			evs = append(evs, g.roBlock(x.Body, depth+1)...)
+			return false
+		case *ast.DeferStmt:
+			deferred = append(sub(x.Call), deferred...)
+			return false
+		case *ast.GoStmt:
+			if len(sub(x.Call)) > 0 {
+				evs = append(evs, "?")
+			}
+			return false
+		case *ast.SwitchStmt:
+			evs = append(evs, sub(x.Init)...)
+			evs = append(evs, sub(x.Tag)...)
+			var alt []string
+			for _, c := range x.Body.List {
+				e := sub(c)
+				if len(e) == 0 {
+					continue
+				}
+				if alt == nil {
+					alt = e
+				} else if strings.Join(alt, ",") != strings.Join(e, ",") {
+					alt = []string{"?"}
+				}
+			}
+			evs = append(evs, alt...)
+			return false
+		case *ast.IfStmt:
+			evs = append(evs, sub(x.Init)...)
+			evs = append(evs, sub(x.Cond)...)
+			if len(sub(x.Body)) > 0 || (x.Else != nil && len(sub(x.Else)) > 0) {
+				evs = append(evs, "?")
+			}
+			return false
+		case *ast.ForStmt:
+			if len(sub(x.Init))+len(sub(x.Cond))+len(sub(x.Post))+len(sub(x.Body)) > 0 {
+				evs = append(evs, "?")
+			}
+			return false
+		case *ast.RangeStmt:
+			if len(sub(x.X))+len(sub(x.Body)) > 0 {
+				evs = append(evs, "?")
+			}
+			return false
+		case *ast.CallExpr:
+			f := g.text(x.Fun)
+			switch {
+			case strings.HasSuffix(f, ".readBufPool.Get"):
+				evs = append(evs, "get")
+			case strings.HasSuffix(f, ".readBufPool.Put"):
+				evs = append(evs, "put")
+			case strings.HasSuffix(f, ".file.ReadAt"):
+				evs = append(evs, "read")
+			case strings.HasSuffix(f, ".WriteTo") && len(x.Args) == 1:
+				evs = append(evs, "send")
+			case strings.HasSuffix(f, ".PayloadCleanup") && len(x.Args) == 0:
+				if pc, ok := g.funcs["rreadServerPayloader.PayloadCleanup"]; ok && pc.Body != nil {
+					evs = append(evs, g.roBlock(pc.Body, depth+1)...)
+				} else {
+					evs = append(evs, "?")
+				}
+				return false
+			case f == "copy" && len(x.Args) == 2:
+				dst, src := g.text(x.Args[0]), g.text(x.Args[1])
+				switch {
+				case strings.HasSuffix(src, ".pristineZeros") && strings.HasSuffix(dst, ".Data"):
+					evs = append(evs, "zero")
+				case strings.HasSuffix(src, ".pristineZeros"):
+					evs = append(evs, "?")
+				case strings.Contains(src, ".pendingXattr.buf"):
+					evs = append(evs, "read")
+				}
+			}
+		}
+		return true
+	}
+	ast.Inspect(body, visit)
+	return append(evs, deferred...)
 }
 
 func cgSortStrings(l []string) {
